@@ -128,6 +128,27 @@ fn statements() {
             if !same || txt.matches('\n').count() != 1 { println!("{{\"mismatch\":\"N-Triples round trip changes the triple\",\"triple\":\"{:?}\",\"text\":{:?}}}", t3[0], txt); std::process::exit(1); }
         }
     }}}
+    // whole datasets through ONE serializer call (0, 1, 80, 100, 150, 400, 1000 mixed statements: the text crosses
+    // several multiples of 4 / 8 / 16 KiB), via the stringifier and via a plain io::Write
+    for size in [0usize, 1, 80, 100, 150, 400, 1000] {
+        let d: Vec<Spog<T>> = (0..size).map(|i| ([subjs[i % subjs.len()].clone(), iri(&format!("http://example.org/p{}", i)), objs[i % objs.len()].clone()], graphs[i % graphs.len()].clone())).collect();
+        n += 1;
+        let txt1 = NqSerializer::new_stringifier().serialize_dataset(&d).unwrap().to_string();
+        let mut sink: Vec<u8> = vec![];
+        NqSerializer::new(&mut sink).serialize_dataset(&d).unwrap();
+        let txt2 = String::from_utf8(sink).unwrap();
+        for (how, txt) in [("stringifier", &txt1), ("io::Write", &txt2)] {
+            if txt.matches('\n').count() != size { println!("{{\"mismatch\":\"N-Quads output of {} statements ({}) has {} lines\"}}", size, how, txt.matches('\n').count()); std::process::exit(1); }
+            let back: Result<Vec<Spog<T>>, _> = nq::parse_str(txt).collect_quads();
+            let same = match &back { Ok(v) => v.len() == size && v.iter().zip(d.iter()).all(|(a, b)| Quad::eq(a, b.clone())), Err(_) => false };
+            if !same { println!("{{\"mismatch\":\"N-Quads round trip of a dataset of {} statements ({}, {} bytes) changes it\",\"parsed\":\"{:?}\"}}", size, how, txt.len(), back.map(|v| v.len()).map_err(|e| e.to_string())); std::process::exit(1); }
+        }
+        let t3: Vec<[T; 3]> = d.iter().map(|q| q.0.clone()).collect();
+        let txt = NtSerializer::new_stringifier().serialize_graph(&t3).unwrap().to_string();
+        let back: Result<Vec<[T; 3]>, _> = nt::parse_str(&txt).collect_triples();
+        let same = match &back { Ok(v) => v.len() == size && v.iter().zip(t3.iter()).all(|(a, b)| sophia_api::triple::Triple::eq(a, b.clone())), Err(_) => false };
+        if !same || txt.matches('\n').count() != size { println!("{{\"mismatch\":\"N-Triples round trip of a graph of {} statements ({} bytes) changes it\"}}", size, txt.len()); std::process::exit(1); }
+    }
     println!("{{\"ok\":true,\"mode\":\"stmts\",\"cases\":{}}}", n);
 }
 
